@@ -67,6 +67,12 @@ type replTable struct {
 	local map[int][]replVal
 	// rendering: order of keys and spellings of values are fixed at generation time
 	order []replKey
+	// fault (group E, fault_test.go): the table is a scripted table instance (`replace_rcpt &<name>`)
+	// with the same content whose chosen lookups return an error. offFull / offBare make the model
+	// skip the full-address / local-part lookup (used only to find the envelopes for which the
+	// unrewritten address is routed differently - never for a verdict).
+	fault            *faultSpec
+	offFull, offBare bool
 }
 
 type replKey struct {
@@ -318,14 +324,14 @@ func (t *replTable) apply(x addr) []addr {
 	if x.null {
 		return []addr{x}
 	}
-	if vs, ok := t.full[x]; ok && len(vs) > 0 {
+	if vs, ok := t.full[x]; ok && len(vs) > 0 && !t.offFull {
 		out := make([]addr, len(vs))
 		for i, v := range vs {
 			out[i] = v.a
 		}
 		return out
 	}
-	if vs, ok := t.local[x.l]; ok && len(vs) > 0 {
+	if vs, ok := t.local[x.l]; ok && len(vs) > 0 && !t.offBare {
 		out := make([]addr, len(vs))
 		for i, v := range vs {
 			if v.bare {
